@@ -152,3 +152,45 @@ async fn c15_accepted_bind_sends_exactly_one_reply() {
     }
     assert_eq!(replies, vec![crate::frame::OpCode::Finish], "accepted bind must be answered by exactly one Finish");
 }
+
+/// A transport whose source yields a fixed script of messages and then stays silent; the sink accepts everything.
+struct Scripted(alloc::collections::VecDeque<Message>);
+impl WebSocket for Scripted {
+    fn poll_ready_unpin(&mut self, _cx: &mut Context<'_>) -> Poll<Result<()>> {
+        Poll::Ready(Ok(()))
+    }
+    fn start_send_unpin(&mut self, _item: Message) -> Result<()> {
+        Ok(())
+    }
+    fn poll_flush_unpin(&mut self, _cx: &mut Context<'_>) -> Poll<Result<()>> {
+        Poll::Ready(Ok(()))
+    }
+    fn poll_close_unpin(&mut self, _cx: &mut Context<'_>) -> Poll<Result<()>> {
+        Poll::Ready(Ok(()))
+    }
+    fn poll_next_unpin(&mut self, _cx: &mut Context<'_>) -> Poll<Option<Result<Message>>> {
+        match self.0.pop_front() {
+            Some(m) => Poll::Ready(Some(Ok(m))),
+            None => Poll::Pending,
+        }
+    }
+}
+
+/// C08 (not a defect; passes on the pinned tree): a Connect still buffered in the source when the keepalive
+/// expires does not make the teardown wait on the full accept queue, because the handshake Acknowledge is queued
+/// first and the outbound queue is already closed in the wind-down. Kept to document why C08.R6 does not list
+/// the accept queue.
+#[tokio::test]
+async fn c08_buffered_connect_does_not_block_teardown() {
+    let opts = Options::new()
+        .stream_buffer_size(2)
+        .keepalive_interval(OptionalDuration::from(Duration::from_millis(100)))
+        .keepalive_timeout(OptionalDuration::from(Duration::from_millis(200)));
+    let script = (1..=6u32)
+        .map(|id| Message::Binary(bytes::Bytes::from(&Frame::new_connect(b"h", 1, id, 8))))
+        .collect();
+    let mux = Multiplexor::new_with_opt(Scripted(script), opts, None);
+    let r = tokio::time::timeout(Duration::from_secs(3), mux.get_datagram()).await;
+    assert!(r.is_ok(), "get_datagram still pending 3 s after the keepalive expired");
+    assert!(matches!(r.unwrap(), Err(Error::Closed)));
+}
